@@ -36,14 +36,127 @@ import (
 	"github.com/voedger/voedger/pkg/itokensjwt"
 )
 
-// ---- fixed test universe: two secrets, three apps, four payload types ----
+// ---- fixed test universe: families of secrets, three apps, four payload types ----
 
-func secret(i int) itokensjwt.SecretKeyType {
-	k := make([]byte, itokensjwt.SecretKeyLength)
+// The secrets are identified by index (the replay description stores indices). 0 and 1 are two
+// unrelated secrets of the minimum length (64 bytes). 2..10 all start with secret 0 and differ from
+// each other only after byte 64 (one more byte, other last byte, other byte 65, longer extensions);
+// 11 and 12 extend secret 1. 13..16 are prefixes of secret 0 below the minimum length, which
+// NewJWTSigner must refuse. Extension bytes are never zero: HMAC zero-pads keys shorter than the
+// hash block, so K and K||00 are the same HMAC key for HS384/HS512 - not a defect of the code under test.
+const nValidSecrets = 13
+const nSecrets = 17
+
+func base(i int) []byte {
+	k := make([]byte, 64)
 	for j := range k {
 		k[j] = byte(17*j + 101*i + 3)
 	}
 	return k
+}
+
+func ext(k []byte, n int) []byte {
+	out := append([]byte{}, k...)
+	for j := 0; j < n; j++ {
+		out = append(out, byte(1+(len(out)*29+7)%250))
+	}
+	return out
+}
+
+func tweak(k []byte, pos int) []byte {
+	out := append([]byte{}, k...)
+	if pos < 0 {
+		pos = len(out) - 1
+	}
+	out[pos] ^= 0x5a
+	if out[pos] == 0 {
+		out[pos] = 0x33
+	}
+	return out
+}
+
+func secret(i int) itokensjwt.SecretKeyType {
+	a, b := base(0), base(1)
+	switch i {
+	case 0:
+		return a
+	case 1:
+		return b
+	case 2:
+		return ext(a, 1) // 65 bytes
+	case 3:
+		return tweak(ext(a, 1), -1) // 65 bytes, other byte 65
+	case 4:
+		return ext(a, 36) // 100 bytes, extension of 2
+	case 5:
+		return tweak(ext(a, 36), -1) // other last byte
+	case 6:
+		return tweak(ext(a, 36), 64) // other byte 65
+	case 7:
+		return ext(a, 64) // 128 bytes, extension of 4
+	case 8:
+		return ext(a, 136) // 200 bytes, extension of 7
+	case 9:
+		return tweak(ext(a, 136), -1)
+	case 10:
+		return tweak(ext(a, 136), 64)
+	case 11:
+		return ext(b, 1)
+	case 12:
+		return ext(b, 64)
+	case 13:
+		return a[:63]
+	case 14:
+		return a[:32]
+	case 15:
+		return a[:1]
+	case 16:
+		return []byte{}
+	}
+	panic(fmt.Sprintf("unknown secret %d", i))
+}
+
+// secrets 2..10 agree with secret 0 on the first 64 bytes, 11..12 with secret 1
+func family(i int) int {
+	switch {
+	case i == 0 || (i >= 2 && i <= 10) || i >= 13:
+		return 0
+	}
+	return 1
+}
+
+func keyRelation(a, b int) string {
+	ka, kb := secret(a), secret(b)
+	switch {
+	case bytes.Equal(ka, kb):
+		return "keys:same"
+	case len(ka) >= 64 && len(kb) >= 64 && bytes.Equal(ka[:64], kb[:64]):
+		return "keys:differ-only-after-byte-64"
+	}
+	return "keys:differ-within-64"
+}
+
+// the secret (of the universe) under which sig is the HMAC of text by the header's method, found
+// by recomputing the MAC with each WHOLE secret
+func macKey(alg string, text string, sig []byte) (int, error) {
+	hf := hmacHash(alg)
+	if hf == nil {
+		return -1, nil
+	}
+	found := -1
+	for i := 0; i < nSecrets; i++ {
+		m := hmac.New(hf, secret(i))
+		m.Write([]byte(text))
+		if hmac.Equal(sig, m.Sum(nil)) {
+			if found >= 0 && !bytes.Equal(secret(found), secret(i)) {
+				return -1, fmt.Errorf("secrets %d and %d are equivalent HMAC keys for %s", found, i, alg)
+			}
+			if found < 0 {
+				found = i
+			}
+		}
+	}
+	return found, nil
 }
 
 var payloadTypes = []string{"principal", "blob", "verified", "verification"}
@@ -129,7 +242,7 @@ type forgeSpec struct {
 	Claims    string  `json:"claims"`               // JSON text of the claims
 	HeaderSeg *string `json:"header_seg,omitempty"` // raw segment instead of base64(Header)
 	ClaimsSeg *string `json:"claims_seg,omitempty"` // raw segment instead of base64(Claims)
-	Sign      string  `json:"sign"`                 // k0 | k1 (HMAC by the header's alg, HS256 if the alg is not HMAC) | empty | garbage | badb64
+	Sign      string  `json:"sign"`                 // k<i> (HMAC under secret i by the header's alg, HS256 if the alg is not HMAC) | empty | garbage | badb64
 }
 
 type valSpec struct {
@@ -139,7 +252,15 @@ type valSpec struct {
 	Now   int64  `json:"now_ns"` // ns after kit.Epoch
 }
 
+// two secrets side by side: does NewJWTSigner take them, do their keyed hashes of the same data agree
+type keysSpec struct {
+	A       int    `json:"a"`
+	B       int    `json:"b"`
+	DataHex string `json:"data_hex"`
+}
+
 type caseSpec struct {
+	Keys   *keysSpec      `json:"keys,omitempty"`
 	Issue  *issueSpec     `json:"issue,omitempty"`
 	Mut    *mutSpec       `json:"mut,omitempty"`
 	Forge  *forgeSpec     `json:"forge,omitempty"`
@@ -218,7 +339,7 @@ type tview struct {
 	claimsB  []byte
 	sigB64   bool
 	sig      []byte
-	sigOK    bool
+	macKey   int // index of the secret the signature was made under, -1: none
 	sigCanon bool
 	iatOK    bool
 	iat      int64
@@ -258,10 +379,10 @@ func payloadDigest(p any) uint32 {
 	return crc32.ChecksumIEEE(b)
 }
 
-func viewOf(tok string, key []byte, ptype string) *tview {
-	v := &tview{hdr: "HBadB64", cl: "CBadB64"}
+func viewOf(tok string, ptype string) (*tview, error) {
+	v := &tview{hdr: "HBadB64", cl: "CBadB64", macKey: -1}
 	if strings.Count(tok, ".") != 2 {
-		return v
+		return v, nil
 	}
 	v.split = true
 	v.segs = strings.Split(tok, ".")
@@ -300,13 +421,22 @@ func viewOf(tok string, key []byte, ptype string) *tview {
 	if sb, err := base64.RawURLEncoding.DecodeString(v.segs[2]); err == nil {
 		v.sigB64, v.sig = true, sb
 		v.sigCanon = base64.RawURLEncoding.EncodeToString(sb) == v.segs[2]
-		if hf := hmacHash(v.alg); hf != nil && v.algIsStr {
-			m := hmac.New(hf, key)
-			m.Write([]byte(v.segs[0] + "." + v.segs[1]))
-			v.sigOK = hmac.Equal(sb, m.Sum(nil))
+		if v.algIsStr {
+			k, err := macKey(v.alg, v.segs[0]+"."+v.segs[1], sb)
+			if err != nil {
+				return nil, err
+			}
+			v.macKey = k
 		}
 	}
-	return v
+	return v, nil
+}
+
+func optKey(i int) string {
+	if i < 0 {
+		return "None"
+	}
+	return "(Some " + kit.Bytes(secret(i)) + ")"
 }
 
 func (v *tview) coq() string {
@@ -321,7 +451,7 @@ func (v *tview) coq() string {
 	if c == "CObj" {
 		c = "(CObj " + claimsCoq(v.claims) + ")"
 	}
-	return fmt.Sprintf("(VTok (mkTok %s %s %s %s %s %s %s))", h, c, kit.Bool(v.sigB64), kit.Bool(v.sigOK), kit.Bool(v.sigCanon),
+	return fmt.Sprintf("(VTok (mkTok %s %s %s %s %s %s %s))", h, c, kit.Bool(v.sigB64), optKey(v.macKey), kit.Bool(v.sigCanon),
 		optZ(v.iatOK, v.iat), kit.OptN(v.plOK, uint64(v.plDigest)))
 }
 
@@ -450,6 +580,15 @@ func headerAlg(hdr string) string {
 	return ""
 }
 
+// "k<i>": HMAC (by the header's method, HS256 if that is not an HMAC one) under secret i
+func signKey(mode string) (int, bool) {
+	if len(mode) < 2 || mode[0] != 'k' {
+		return 0, false
+	}
+	k, err := strconv.Atoi(mode[1:])
+	return k, err == nil && k >= 0 && k < nSecrets
+}
+
 func buildForged(f *forgeSpec) string {
 	h := b64([]byte(f.Header))
 	if f.HeaderSeg != nil {
@@ -461,14 +600,18 @@ func buildForged(f *forgeSpec) string {
 	}
 	var s string
 	switch f.Sign {
-	case "k0", "k1":
-		s = signSegs(h, c, headerAlg(f.Header), secret(int(f.Sign[1]-'0')))
 	case "empty":
 		s = ""
 	case "garbage":
 		s = b64([]byte("0123456789abcdef0123456789abcdef"))
-	default: // badb64
+	case "badb64":
 		s = "!!*"
+	default:
+		k, ok := signKey(f.Sign)
+		if !ok {
+			panic("unknown sign mode " + f.Sign)
+		}
+		s = signSegs(h, c, headerAlg(f.Header), secret(k))
 	}
 	return h + "." + c + "." + s
 }
@@ -556,7 +699,52 @@ func mutate(tok string, m *mutSpec) string {
 
 var authenticator = iauthnzimpl.NewDefaultAuthenticator(iauthnzimpl.TestSubjectRolesGetter, iauthnzimpl.TestIsDeviceAllowedFuncs)
 
+func runKeys(cs *caseSpec) (coq string, tags []string, key string, nontrivial bool, err error) {
+	ks := cs.Keys
+	data, err := hex.DecodeString(ks.DataHex)
+	if err != nil {
+		return "", nil, "", false, err
+	}
+	clock := kit.NewClock()
+	construct := func(i int) (t itokens.ITokens, note string) {
+		defer func() {
+			if r := recover(); r != nil {
+				t, note = nil, fmt.Sprint(r)
+			}
+		}()
+		return itokensjwt.ProvideITokens(secret(i), clock), "constructed"
+	}
+	ta, na := construct(ks.A)
+	tb, nb := construct(ks.B)
+	hashEq := "None"
+	cs.Obs = map[string]any{"a_len": len(secret(ks.A)), "b_len": len(secret(ks.B)), "a": na, "b": nb}
+	rel := keyRelation(ks.A, ks.B)
+	tags = []string{"origin:keys", rel, fmt.Sprintf("ctor:%v,%v", ta != nil, tb != nil)}
+	if ta != nil && tb != nil {
+		ha, hb := ta.CryptoHash256(data), tb.CryptoHash256(data)
+		ha2 := ta.CryptoHash256(data)
+		eq := ha == hb
+		if ha != ha2 {
+			return "", nil, "", false, fmt.Errorf("CryptoHash256 is not a function of (secret, data)")
+		}
+		hashEq = "(Some " + kit.Bool(eq) + ")"
+		cs.Obs["hash_a"], cs.Obs["hash_b"], cs.Obs["hash_equal"] = hex.EncodeToString(ha[:]), hex.EncodeToString(hb[:]), eq
+		tags = append(tags, fmt.Sprintf("hash-equal:%v", eq))
+		if eq && rel != "keys:same" {
+			tags = append(tags, "same-hash-under-"+rel[5:])
+		}
+		nontrivial = rel != "keys:differ-within-64"
+	}
+	coq = fmt.Sprintf("TKeys (mkKeys %s %s %s %s %s)", kit.Bytes(secret(ks.A)), kit.Bytes(secret(ks.B)), kit.Bool(ta != nil), kit.Bool(tb != nil), hashEq)
+	sort.Strings(tags)
+	key = strings.Join(tags, ",") + fmt.Sprintf("|%d,%d|%d", len(secret(ks.A)), len(secret(ks.B)), len(data))
+	return coq, tags, key, nontrivial, nil
+}
+
 func run(cs *caseSpec) (coq string, tags []string, key string, nontrivial bool, err error) {
+	if cs.Keys != nil {
+		return runKeys(cs)
+	}
 	clock := kit.NewClock()
 	tagset := map[string]bool{}
 	var tok, issued string
@@ -579,7 +767,7 @@ func run(cs *caseSpec) (coq string, tags []string, key string, nontrivial bool, 
 			tagset["mut:"+cs.Mut.Op] = true
 		}
 		t0abs := kit.Epoch.Add(time.Duration(is.T0)).UnixNano()
-		origin = fmt.Sprintf("(OIssued %s %s %s %s %s %s %d)", kit.Bool(is.Key == cs.Val.Key), kit.Bool(tok == issued),
+		origin = fmt.Sprintf("(OIssued %s %s %s %s %s %s %d)", kit.Bytes(secret(is.Key)), kit.Bool(tok == issued),
 			bs(is.App), bs(audOf(is.PType)), zc(t0abs), zc(is.Dur), payloadDigest(pl))
 		tagset["origin:issued"] = true
 		if tok != issued {
@@ -609,12 +797,18 @@ func run(cs *caseSpec) (coq string, tags []string, key string, nontrivial bool, 
 		tagset["origin:raw"] = true
 	}
 	cs.Token = hex.EncodeToString([]byte(tok))
-	v := viewOf(tok, valKey, cs.Val.PType)
+	v, err := viewOf(tok, cs.Val.PType)
+	if err != nil {
+		return "", nil, "", false, err
+	}
+	signedBy := -1
 	if cs.Forge != nil || resignedBy >= 0 {
-		// what the harness itself signed: the claims it wrote, under which key, with a real HMAC or not
-		sameKey := resignedBy == cs.Val.Key
+		// what the harness itself signed: the claims it wrote, under which secret, with a real HMAC or not
+		signedBy = resignedBy
 		if cs.Forge != nil {
-			sameKey = (cs.Forge.Sign == "k0" || cs.Forge.Sign == "k1") && int(cs.Forge.Sign[1]-'0') == cs.Val.Key && hmacHash(headerAlg(cs.Forge.Header)) != nil
+			if k, ok := signKey(cs.Forge.Sign); ok && hmacHash(headerAlg(cs.Forge.Header)) != nil {
+				signedBy = k
+			}
 		}
 		var aud, app string
 		var audOK, appOK, expOK bool
@@ -627,7 +821,7 @@ func run(cs *caseSpec) (coq string, tags []string, key string, nontrivial bool, 
 				exp, expOK = int64(math.Floor(f)), true
 			}
 		}
-		origin = fmt.Sprintf("(OSigned %s %s %s %s)", kit.Bool(sameKey), optBytes(audOK, aud), optBytes(appOK, app), optZ(expOK, exp))
+		origin = fmt.Sprintf("(OSigned %s %s %s %s)", optKey(signedBy), optBytes(audOK, aud), optBytes(appOK, app), optZ(expOK, exp))
 	}
 
 	nowAbs := clock.Now().UnixNano()
@@ -666,11 +860,25 @@ func run(cs *caseSpec) (coq string, tags []string, key string, nontrivial bool, 
 	}
 	cs.Obs = map[string]any{"itokens": o1.desc(), "iapptokens": o2.desc(), "authenticate": authDesc}
 
-	coq = fmt.Sprintf("mkTrace %s %s %s %s %s %s %s %s", zc(nowAbs), bs(audOf(cs.Val.PType)), bs(cs.Val.App), v.coq(), origin, o1.coq(), o2.coq(), auth)
+	coq = fmt.Sprintf("TVal (mkTrace %s %s %s %s %s %s %s %s %s)", kit.Bytes(valKey), zc(nowAbs), bs(audOf(cs.Val.PType)), bs(cs.Val.App), v.coq(), origin, o1.coq(), o2.coq(), auth)
 
 	tagset["tok:"+o1.tag()] = true
 	tagset["apptok:"+o2.tag()] = true
 	tagset["ptype:"+cs.Val.PType] = true
+	tagset[fmt.Sprintf("keylen:%d", len(valKey))] = true
+	signer := signedBy
+	if cs.Issue != nil && resignedBy < 0 {
+		signer = cs.Issue.Key
+	}
+	if signer >= 0 {
+		rel := keyRelation(signer, cs.Val.Key)
+		tagset[rel] = true
+		if rel != "keys:same" && (o1.code == "ok" || o2.code == "ok") {
+			tagset["accepted-under-"+rel[5:]] = true
+		}
+		cs.Obs["issuer_secret_len"] = len(secret(signer))
+	}
+	cs.Obs["validator_secret_len"] = len(valKey)
 	anyPanic := o1.code == "panic" || o2.code == "panic" || strings.HasPrefix(authDesc, "panic")
 	if anyPanic {
 		if v.lacksAssertedClaim() {
@@ -680,8 +888,8 @@ func run(cs *caseSpec) (coq string, tags []string, key string, nontrivial bool, 
 		}
 	}
 	if cs.Issue != nil && tok != issued && resignedBy < 0 && (o1.code == "ok" || o2.code == "ok") {
-		iv := viewOf(issued, valKey, cs.Val.PType)
-		if iv.split && v.split && iv.segs[0] == v.segs[0] && iv.segs[1] == v.segs[1] && bytes.Equal(iv.sig, v.sig) {
+		iv, _ := viewOf(issued, cs.Val.PType)
+		if iv != nil && iv.split && v.split && iv.segs[0] == v.segs[0] && iv.segs[1] == v.segs[1] && bytes.Equal(iv.sig, v.sig) {
 			tagset["C14-SIGENC:other-encoding-of-the-signature-accepted"] = true
 		} else {
 			tagset["mutated-accepted:other"] = true
@@ -694,7 +902,7 @@ func run(cs *caseSpec) (coq string, tags []string, key string, nontrivial bool, 
 			shape += "/alg=" + v.alg
 			nontrivial = true
 		}
-		shape += fmt.Sprintf("/sig=%v,%v,%v", v.sigB64, v.sigOK, v.sigCanon)
+		shape += fmt.Sprintf("/sig=%v,%v,%v", v.sigB64, v.macKey == cs.Val.Key, v.sigCanon)
 	}
 	for t := range tagset {
 		tags = append(tags, t)
